@@ -23,6 +23,9 @@
                or 0.15625 nm so that every neighbour vector is of type (1,0,0) or (1,1,0)
      5 "probe" the fixed hand-made trajectory of the first probe: 4 beads on a unit square,
                boxes 4^3 then 8^3 nm
+     7 "chain" four-bead chains A1-B-B-A2 with bond, angle and dihedral distributions (negative minimum),
+               non-bonded interactions selected by the wildcard pattern "A*", decimal bin steps, and a
+               bonded interaction inside an IMC group
      6 "tric"  strongly skewed triclinic boxes (a = (ax,0,0), b = (+-ax/2, by, 0), c = (0,0,cz),
                ax 19-22 nm, by 4-4.5 nm): |b| is more than twice the box width along b; the A-A range
                reaches 1.9375 nm with cutoff 2 nm = half the smallest height
@@ -55,7 +58,7 @@ Coord(x, g, sp, off) ==
 
 \* planted beads and the layouts that put their distances just below the range (see header)
 Planted(off) == <<VAdd(off, <<-6, 0, 0>>), VAdd(off, <<-3, 0, 0>>), VAdd(off, <<-3, 2, 0>>)>>
-HiLayout(s, i, n) == LET c == PickSeq(s, i, << <<16, 4>>, <<18, 8>>, <<17, 8>> >>) IN [mq |-> c[1], sq |-> c[2], n |-> n]
+HiLayout(s, i, n) == LET c == PickSeq(s, i, << <<16, 4>>, <<18, 8>>, <<17, 8>> >>) IN [den |-> 4, mq |-> c[1], sq |-> c[2], n |-> n]
 \* largest n with max = mq + (n-1) sq <= 2 Lmin, at most `want`
 CapN(mq, sq, want, Lmin) == Min2(want, (2 * Lmin - mq) \div sq + 1)
 
@@ -70,18 +73,35 @@ Offset(s, f, lo, hi) == <<lo + Pick(s, 940 + f, hi - lo + 1), lo + Pick(s, 950 +
 NFrames(s) == 3 + Pick(s, 2, 2)                     \* 3..4 frames
 
 \* bin layout of a distance distribution: max = mq + (n-1) sq <= 2 Lmin q (half the smallest box)
-NbLayout(s, i, Lmin) ==
+\* dyadic layouts (den = 4, q = 1/32 nm)
+NbLayoutDy(s, i, Lmin) ==
   LET mq == PickSeq(s, i, <<0, 8, 4, 2, 0>>)
       sq == PickSeq(s, i + 1, <<4, 8, 2, 4>>)
       want == 5 + Pick(s, i + 2, 16)
       cap == (2 * Lmin - mq) \div sq + 1
-  IN [mq |-> mq, sq |-> sq, n |-> Min2(want, cap)]
+  IN [den |-> 4, mq |-> mq, sq |-> sq, n |-> Min2(want, cap)]
+\* decimal layouts (den = 100, q = 1/800 nm): (min, step) = (0.07, 0.05), (0.02, 0.1), (0.03375, 0.02) nm.
+\* No bin edge (mq + (k - 1/2) sq)/100 u is a whole number of u (36+40k, -24+80k, 19+16k are never
+\* multiples of 100), and a distance sqrt(d2) u can only equal a rational edge if that edge is an integer:
+\* these layouts have no ties, and their lowest edge is not 0.
+DecLayouts == << <<56, 40>>, <<16, 80>>, <<27, 16>> >>
+NbLayoutDec(s, i, Lmin) ==
+  LET c == PickSeq(s, i, DecLayouts)
+      want == 5 + Pick(s, i + 2, 16)
+      cap == (50 * Lmin - c[1]) \div c[2] + 1          \* 2 max <= den Lmin
+  IN [den |-> 100, mq |-> c[1], sq |-> c[2], n |-> Min2(want, cap)]
+NbLayout(s, i, Lmin) == IF Pick(s, i + 3, 4) = 0 THEN NbLayoutDec(s, i, Lmin) ELSE NbLayoutDy(s, i, Lmin)
 Target(s, i, n) == [k \in 1..n |-> Pick(s, i + k, 17)]
 
 Single(name, type, cnt) == [name |-> name, nmols |-> cnt, beads |-> <<[name |-> type \o "1", type |-> type]>>]
-Nb(name, t1, t2, lay, group, tgt) ==
-  [name |-> name, kind |-> "nb", t |-> <<t1, t2>>, mq |-> lay.mq, sq |-> lay.sq, n |-> lay.n,
+\* t: the type patterns written to the options file; sel: the type names each pattern matches
+NbW(name, t, sel, lay, group, tgt) ==
+  [name |-> name, kind |-> "nb", t |-> t, sel |-> sel, den |-> lay.den, mq |-> lay.mq, sq |-> lay.sq, n |-> lay.n,
    decoy |-> lay.n + 1, group |-> group, cutq |-> 0, tgt |-> tgt]
+Nb(name, t1, t2, lay, group, tgt) == NbW(name, <<t1, t2>>, <<{t1}, {t2}>>, lay, group, tgt)
+Bonded(name, kind, lay, group, tgt) ==
+  [name |-> name, kind |-> kind, t |-> <<>>, sel |-> <<>>, den |-> lay.den, mq |-> lay.mq, sq |-> lay.sq, n |-> lay.n,
+   decoy |-> lay.n, group |-> group, cutq |-> 0, tgt |-> tgt]
 MinBox(frames) == MinOfSet(UNION {{frames[f].box[1], frames[f].box[2], frames[f].box[3]} : f \in 1..Len(frames)})
 
 \* ---- family 1: one type ---------------------------------------------------------------------
@@ -155,10 +175,10 @@ ScenMol(s) ==
       h0 == HiLayout(s, 20, 2)
       l1 == [h0 EXCEPT !.n = CapN(h0.mq, h0.sq, 4 + Pick(s, 22, 8), Lm)]
       l2 == NbLayout(s, 24, Lm)
-      lb == [mq |-> PickSeq(s, 40, <<2, 1, 4, 3>>), sq |-> PickSeq(s, 41, <<2, 1, 2>>), n |-> 6 + Pick(s, 42, 6)]
+      lb == [den |-> 4, mq |-> PickSeq(s, 40, <<2, 1, 4, 3>>), sq |-> PickSeq(s, 41, <<2, 1, 2>>), n |-> 6 + Pick(s, 42, 6)]
       asq == PickSeq(s, 43, <<4, 2, 8>>)
       \* angle range up to pi (full) or cut short (values discarded)
-      la == [mq |-> 0, sq |-> asq, n |-> IF Pick(s, 44, 3) = 0 THEN 60 \div asq ELSE 100 \div asq + 2]
+      la == [den |-> 4, mq |-> 0, sq |-> asq, n |-> IF Pick(s, 44, 3) = 0 THEN 60 \div asq ELSE 100 \div asq + 2]
       grp == IF intra THEN "none" ELSE "g1"
   IN [kind |-> 3, seed |-> s,
       mols |-> <<[name |-> "TRI", nmols |-> NT,
@@ -168,10 +188,7 @@ ScenMol(s) ==
                    [kind |-> "angle", name |-> "ang", mol |-> "TRI", beads |-> <<<<"A1", "B1", "A2">>>>]>>,
       inter |-> <<Nb("A-A", "A", "A", l1, grp, Target(s, 30, l1.n)),
                   Nb("A-B", "A", "B", l2, grp, Target(s, 50, l2.n)),
-                  [name |-> "bnd", kind |-> "bond", t |-> <<>>, mq |-> lb.mq, sq |-> lb.sq, n |-> lb.n, decoy |-> lb.n,
-                   group |-> "none", cutq |-> 0, tgt |-> <<>>],
-                  [name |-> "ang", kind |-> "angle", t |-> <<>>, mq |-> la.mq, sq |-> la.sq, n |-> la.n, decoy |-> la.n,
-                   group |-> "none", cutq |-> 0, tgt |-> <<>>]>>,
+                  Bonded("bnd", "bond", lb, "none", <<>>), Bonded("ang", "angle", la, "none", <<>>)>>,
       frames |-> frames, doimc |-> ~intra /\ Pick(s, 6, 2) = 0, intra |-> intra]
 
 \* ---- family 4: angular three-body distributions ------------------------------------------------
@@ -188,7 +205,7 @@ ScenTb(s) ==
                    IN [box |-> Box(s, f), pos |-> SubSeq(rnd, 1, NA) \o Planted(VAdd(off, <<-2, 0, 0>>)) \o SubSeq(rnd, NA + 1, NA + NB)]]
       h0 == HiLayout(s, 20, 2)
       l1 == [h0 EXCEPT !.n = CapN(h0.mq, h0.sq, 3 + Pick(s, 22, 5), MinBox(frames))]
-      tb(name, t2) == [name |-> name, kind |-> "3b", t |-> <<"A", t2, t2>>, mq |-> 0, sq |-> 4,
+      tb(name, t2) == [name |-> name, kind |-> "3b", t |-> <<"A", t2, t2>>, sel |-> <<{"A"}, {t2}, {t2}>>, den |-> 4, mq |-> 0, sq |-> 4,
                        n |-> IF Pick(s, 23, 4) = 0 THEN 20 ELSE 26, decoy |-> 26, group |-> "none", cutq |-> cutq, tgt |-> <<>>]
   IN [kind |-> 4, seed |-> s,
       mols |-> <<Single("MA", "A", NA + 3), Single("MB", "B", NB)>>, bonded |-> <<>>,
@@ -201,8 +218,8 @@ ScenProbe(s) ==
   IN [kind |-> 5, seed |-> s,
       mols |-> <<Single("MA", "A", 4)>>, bonded |-> <<>>,
       \* the side (32 q) lies in W1 and the diagonal (45.25 q) in W0 of the second layout
-      inter |-> <<Nb("A-A", "A", "A", [mq |-> 0, sq |-> 8, n |-> 7], "g1", [k \in 1..7 |-> 8]),
-                  Nb("A-A-hi", "A", "A", [mq |-> 48, sq |-> 16, n |-> 2], "g1", <<8, 4>>)>>,
+      inter |-> <<Nb("A-A", "A", "A", [den |-> 4, mq |-> 0, sq |-> 8, n |-> 7], "g1", [k \in 1..7 |-> 8]),
+                  Nb("A-A-hi", "A", "A", [den |-> 4, mq |-> 48, sq |-> 16, n |-> 2], "g1", <<8, 4>>)>>,
       frames |-> << [box |-> <<32, 32, 32>>, pos |-> unit], [box |-> <<64, 64, 64>>, pos |-> unit],
                     [box |-> <<32, 64, 32>>, pos |-> unit] >>,
       doimc |-> TRUE, intra |-> FALSE]
@@ -223,8 +240,8 @@ ScenTric(s) ==
                    IN [box |-> TricBox(s, f),
                        pos |-> SubSeq(rnd, 1, NA) \o Planted(off) \o <<VAdd(off, <<-9, 0, 0>>), VAdd(off, <<-9, 15, 0>>)>>
                                \o SubSeq(rnd, NA + 1, NA + NB)]]
-      l1 == [mq |-> 16, sq |-> 4, n |-> 12]          \* 0.5 .. 1.875 nm, cutoff 2 nm
-      b0 == NbLayout(s, 24, 16)
+      l1 == [den |-> 4, mq |-> 16, sq |-> 4, n |-> 12]          \* 0.5 .. 1.875 nm, cutoff 2 nm
+      b0 == NbLayoutDy(s, 24, 16)
       l2 == [b0 EXCEPT !.n = Min2(b0.n, (64 - b0.sq - b0.mq) \div b0.sq + 1)]   \* max + step <= 2 nm
   IN [kind |-> 6, seed |-> s,
       mols |-> <<Single("MA", "A", NA + 5), Single("MB", "B", NB)>>, bonded |-> <<>>,
@@ -232,6 +249,65 @@ ScenTric(s) ==
                   Nb("A-B", "A", "B", l2, PickSeq(s, 5, <<"g1", "none">>), Target(s, 50, l2.n))>>,
       frames |-> frames, doimc |-> TRUE, intra |-> FALSE]
 
+\* ---- family 7: four-bead chains: dihedrals, wildcard type patterns, decimal steps, bonded in an IMC group --
+\* chain A1-B-B-A2 (types "A1","B","B","A2"): r2 - r1 = v1, r3 - r2 = v2 = (0,0,k), r4 - r3 = v3, where
+\* v1, v3 have an xy part from the 8 lattice directions (z = -1..1 if it is axis-aligned, else 0): all bond
+\* angles are 90 or 45/135 degrees, all dihedrals multiples of 45 degrees.  Molecule 1 always has a negative,
+\* molecule 2 a positive dihedral of 45 or 90 degrees (IUPAC sign), further molecules are random.
+XY8 == << <<1, 0>>, <<1, 1>>, <<0, 1>>, <<-1, 1>>, <<-1, 0>>, <<-1, -1>>, <<0, -1>>, <<1, -1>> >>
+ArmVec(s, i) ==
+  LET xy == PickSeq(s, i, XY8)
+      z == IF xy[1] = 0 \/ xy[2] = 0 THEN Pick(s, i + 1, 3) - 1 ELSE 0
+  IN <<xy[1], xy[2], z>>
+ScenChain(s) ==
+  LET NT == 2 + Pick(s, 1, 2)                      \* 2..3 chains
+      NS == 1 + Pick(s, 3, 2)                      \* 1..2 random solvent beads (type A1) + 3 planted
+      F == NFrames(s)
+      frames == [f \in 1..F |->
+                   LET st == Sites(s, 100 * f, NT + NS, 48, {})
+                       off == Offset(s, f, -6, 30)
+                       c(m) == Coord(st[m], <<3, 4, 4>>, 6, off)
+                       k(m) == PickSeq(s, 100 * f + 10 * m, <<1, 2, -1, -2>>)
+                       v1(m) == IF m <= 2 THEN <<1, 0, 0>> ELSE ArmVec(s, 100 * f + 10 * m + 1)
+                       \* sign(phi) = sign(v1.(v2 x v3)) = -k (v1 x v3)_z
+                       \* (x = -1 keeps |phi| = 45 rather than 135 degrees for either sign of k)
+                       pl(w, sg) == <<w[1], sg * w[2], sg * w[3]>>
+                       v3(m) == IF m = 1 THEN pl(PickSeq(s, 100 * f + 3, << <<0, 1, 0>>, <<-1, 1, 0>>, <<0, 1, 1>> >>), Sgn(k(m)))
+                                ELSE IF m = 2 THEN pl(PickSeq(s, 100 * f + 4, << <<0, 1, 0>>, <<-1, 1, 0>>, <<0, 1, 1>> >>), -Sgn(k(m)))
+                                ELSE ArmVec(s, 100 * f + 10 * m + 3)
+                       ch == [b \in 1..(4 * NT) |->
+                                LET m == (b - 1) \div 4 + 1
+                                    r == (b - 1) % 4
+                                    p2 == c(m)
+                                    p3 == VAdd(c(m), <<0, 0, k(m)>>)
+                                IN IF r = 0 THEN VSub(p2, v1(m)) ELSE IF r = 1 THEN p2 ELSE IF r = 2 THEN p3 ELSE VAdd(p3, v3(m))]
+                       sol == [b \in 1..NS |-> c(NT + b)]
+                   IN [box |-> Box(s, f), pos |-> ch \o sol \o Planted(VAdd(off, <<-6, 0, 0>>))]]
+      Lm == MinBox(frames)
+      h0 == HiLayout(s, 20, 2)
+      l1 == [h0 EXCEPT !.n = CapN(h0.mq, h0.sq, 4 + Pick(s, 22, 8), Lm)]
+      l2 == NbLayoutDec(s, 24, Lm)
+      lb == [den |-> 100, mq |-> 24, sq |-> 16, n |-> 12 + Pick(s, 42, 7)]        \* min 0.03, step 0.02 nm
+      asq == PickSeq(s, 43, <<4, 2, 8>>)
+      la == [den |-> 4, mq |-> 0, sq |-> asq, n |-> 100 \div asq + 2]
+      ld == PickSeq(s, 44, <<[den |-> 4, mq |-> -100, sq |-> 4, n |-> 51], [den |-> 4, mq |-> -104, sq |-> 8, n |-> 27],
+                             [den |-> 4, mq |-> -72, sq |-> 4, n |-> 37]>>)             \* the last one discards |phi| > 2.31
+      AA == {"A1", "A2"}
+  IN [kind |-> 7, seed |-> s,
+      mols |-> <<[name |-> "CH", nmols |-> NT,
+                  beads |-> <<[name |-> "A1", type |-> "A1"], [name |-> "B1", type |-> "B"],
+                              [name |-> "B2", type |-> "B"], [name |-> "A2", type |-> "A2"]>>],
+                 [name |-> "SOL", nmols |-> NS + 3, beads |-> <<[name |-> "S1", type |-> "A1"]>>]>>,
+      bonded |-> <<[kind |-> "bond", name |-> "bnd", mol |-> "CH", beads |-> <<<<"A1", "B1">>, <<"B1", "B2">>, <<"B2", "A2">>>>],
+                   [kind |-> "angle", name |-> "ang", mol |-> "CH", beads |-> <<<<"A1", "B1", "B2">>, <<"B1", "B2", "A2">>>>],
+                   [kind |-> "dihedral", name |-> "dih", mol |-> "CH", beads |-> <<<<"A1", "B1", "B2", "A2">>>>]>>,
+      inter |-> <<NbW("AA", <<"A*", "A*">>, <<AA, AA>>, l1, "g1", Target(s, 30, l1.n)),
+                  NbW("AB", <<"A*", "B">>, <<AA, {"B"}>>, l2, PickSeq(s, 5, <<"g1", "none">>), Target(s, 50, l2.n)),
+                  Bonded("bnd", "bond", lb, "g1", Target(s, 70, lb.n)),
+                  Bonded("ang", "angle", la, "none", <<>>),
+                  Bonded("dih", "dihedral", ld, "none", <<>>)>>,
+      frames |-> frames, doimc |-> TRUE, intra |-> FALSE]
+
 Scenario(k, s) ==
-  CASE k = 1 -> ScenSame(s) [] k = 2 -> ScenTwo(s) [] k = 3 -> ScenMol(s) [] k = 4 -> ScenTb(s) [] k = 5 -> ScenProbe(s) [] k = 6 -> ScenTric(s)
+  CASE k = 1 -> ScenSame(s) [] k = 2 -> ScenTwo(s) [] k = 3 -> ScenMol(s) [] k = 4 -> ScenTb(s) [] k = 5 -> ScenProbe(s) [] k = 6 -> ScenTric(s) [] k = 7 -> ScenChain(s)
 =============================================================================
